@@ -582,9 +582,11 @@ def lift_shapes_lattice(ctx):
                                excuse=("KF-C04-3", None))
 
 
-@case("C04", "lift.collinearity.designed", [], kind="bounded", also=("C10",), share=True, functions=["geometer.operators.is_coplanar"],
+@case("C04", "lift.collinearity.designed", [], kind="bounded", also=("C10",), share=True, functions=["geometer.operators.is_coplanar", "geometer.operators.is_perpendicular", "geometer.operators.is_cocircular", "geometer.operators.crossratio"],
       bound="is_collinear of 4 points (2D) / is_coplanar of 5 points (3D) on collections whose positions are DESIGNED (random points are never collinear): first dim+1 arguments "
-            "independent / dependent with a later one off / all dependent / coincident first arguments; every order of 4 positions, shapes (4,), (2,2), (4,1); exact integer rank as oracle")
+            "independent / dependent with a later one off / all dependent / coincident first arguments; every order of 4 positions, shapes (4,), (2,2), (4,1); exact integer rank as oracle; "
+            "is_perpendicular of 3-element collections of 2D lines / planes mixing perpendicular, parallel and generic pairs (60 + 24 orders), is_cocircular of collections mixing "
+            "cocircular, non-cocircular quadruples and quadruples with a == b (60 orders)")
 def lift_collinearity_designed(ctx):
     import geometer as g
     from geometer import operators as go
@@ -629,6 +631,63 @@ def lift_collinearity_designed(ctx):
             except Exception as e:
                 ok = False
             ctx.ensure("is_collinear/is_coplanar:single-first-argument-broadcasts", ok, witness=dict(dim=dim, configurations=order))
+
+    # collections that MIX degenerate elements (parallel lines: the cross ratio behind is_perpendicular has coinciding first arguments;
+    # coinciding points in is_cocircular) with ordinary ones: every position keeps its own answer
+    pairs2 = [((1, 2, -3), (2, -1, 5), True), ((1, 2, -3), (2, 4, 1), False), ((1, 2, -3), (1, 1, 0), False), ((0, 1, 0), (1, 0, -2), True), ((3, -1, 2), (3, -1, 7), False)]
+    for order in itertools.permutations(range(len(pairs2)), 3):
+        sel = [pairs2[i] for i in order]
+        L = g.LineCollection(np.array([x[0] for x in sel], dtype=float))
+        M = g.LineCollection(np.array([x[1] for x in sel], dtype=float))
+        want = [x[2] for x in sel]
+        w = dict(pairs=[(x[0], x[1]) for x in sel], want=want)
+        try:
+            got = np.asarray(go.is_perpendicular(L, M)).tolist()
+            singles = [bool(go.is_perpendicular(g.Line(*x[0]), g.Line(*x[1]))) for x in sel]
+            ok = got == want and singles == want
+            w["got"] = got
+        except Exception as e:
+            ok = False
+            w["exception"] = "%s: %s" % (type(e).__name__, str(e)[:100])
+        ctx.ensure("is_perpendicular(2d):collections-mixing-parallel-and-perpendicular-pairs", ok, witness=w)
+    # (parallel planes are left out: is_perpendicular raises for them, open finding KF-C10-1, stated in C10/constructions.3d.lattice)
+    pl = [((1, 2, 2, -3), (2, -1, 0, 5), True), ((1, 2, 2, -3), (2, 4, 3, 1), False), ((1, 0, 1, 0), (1, 1, 0, 2), False), ((0, 0, 1, 4), (1, 1, 0, -2), True)]
+    for order in itertools.permutations(range(len(pl)), 3):
+        sel = [pl[i] for i in order]
+        E = g.PlaneCollection(np.array([x[0] for x in sel], dtype=float))
+        F = g.PlaneCollection(np.array([x[1] for x in sel], dtype=float))
+        want = [x[2] for x in sel]
+        w = dict(pairs=[(x[0], x[1]) for x in sel], want=want)
+        try:
+            got = np.asarray(go.is_perpendicular(E, F)).tolist()
+            ok = got == want
+            w["got"] = got
+        except Exception as e:
+            ok = False
+            w["exception"] = "%s: %s" % (type(e).__name__, str(e)[:100])
+        ctx.ensure("is_perpendicular(3d-planes):collections-mixing-perpendicular-and-generic-pairs", ok, witness=w)
+    # is_cocircular: (a, b, c, d) on the circle x^2 + y^2 = 25 / d off it / a == b
+    quads = [((5, 0), (0, 5), (-5, 0), (3, 4), True), ((5, 0), (0, 5), (-5, 0), (3, 3), False), ((5, 0), (5, 0), (-5, 0), (3, 4), True), ((5, 0), (5, 0), (-5, 0), (1, 1), True),
+             ((4, 3), (-3, 4), (0, -5), (2, 2), False)]
+    for order in itertools.permutations(range(len(quads)), 3):
+        sel = [quads[i] for i in order]
+        args = [g.PointCollection(np.array([list(x[j]) + [1] for x in sel], dtype=float)) for j in range(4)]
+        singles = []
+        for x in sel:
+            try:
+                singles.append(bool(go.is_cocircular(*[g.Point(*x[j]) for j in range(4)])))
+            except Exception as e:
+                singles.append(type(e).__name__)
+        w = dict(quadruples=[x[:4] for x in sel], singles=singles)
+        try:
+            got = np.asarray(go.is_cocircular(*args)).tolist()
+            # the single-object answers are the oracle (C04); the designed truth only for the non-degenerate quadruples (C10)
+            ok = got == singles and all(gv == x[4] for gv, x in zip(got, sel) if x[0] != x[1])
+            w["got"] = got
+        except Exception as e:
+            ok = False
+            w["exception"] = "%s: %s" % (type(e).__name__, str(e)[:100])
+        ctx.ensure("is_cocircular:collections-mixing-coincident-and-distinct-points", ok, witness=w)
 
 
 def _has_nan(v):
